@@ -901,8 +901,25 @@ func (w *World) opDiffLinks(op *Op) {
 		if rel == "same-version" || (va != nil && rootLink(va.root) == rootLink(vb.root)) {
 			bound = 0
 		}
-		if len(loadedDL) > bound {
-			w.fail("difflinks-reads-too-much/"+strings.Split(rel, "/")[0], "DiffLinks read %d distinct nodes; versions differ in D=%d nodes (bound %d); versions have %d and %d nodes", len(loadedDL), D, bound, len(setA), len(setB))
+		maxH := int(vb.root.Height)
+		if va != nil && int(va.root.Height) > maxH {
+			maxH = int(va.root.Height)
+		}
+		// tooMuch files a violation when a diff interface read more than the bound. An excess of at
+		// most one root-to-leaf spine (<= height+1 nodes) is a distinct, known behaviour (see
+		// known_findings.jsonl): it gets its own signature so that anything worse is still reported.
+		tooMuch := func(iface, how string, n int) bool {
+			if n <= bound {
+				return false
+			}
+			if bound > 0 && n <= bound+maxH+1 {
+				w.fail("reads-exceed-bound-by-at-most-one-spine", "%s%s read %d distinct nodes; versions differ in D=%d nodes (bound %d, heights %d); versions have %d and %d nodes", iface, how, n, D, bound, maxH, len(setA), len(setB))
+				return true
+			}
+			w.fail(iface+"-reads-too-much/"+strings.Split(rel, "/")[0]+how, "%s%s read %d distinct nodes; versions differ in D=%d nodes (bound %d); versions have %d and %d nodes", iface, how, n, D, bound, len(setA), len(setB))
+			return true
+		}
+		if tooMuch("difflinks", "", len(loadedDL)) {
 			return
 		}
 		// DiffIter
@@ -919,8 +936,7 @@ func (w *World) opDiffLinks(op *Op) {
 			w.failFor("C06", "diffiter-fails/"+rel, "DiffIter(%s): %s", rel, rr)
 			return
 		}
-		if len(loadedDI) > bound {
-			w.fail("diffiter-reads-too-much/"+strings.Split(rel, "/")[0], "DiffIter read %d distinct nodes; versions differ in D=%d nodes (bound %d); versions have %d and %d nodes", len(loadedDI), D, bound, len(setA), len(setB))
+		if tooMuch("diffiter", "", len(loadedDI)) {
 			return
 		}
 		// cursor interface
@@ -949,8 +965,7 @@ func (w *World) opDiffLinks(op *Op) {
 			w.failFor("C06", "diffcursor-fails/"+rel, "NextEntry(%s): %s", rel, rr)
 			return
 		}
-		if len(loadedDC) > bound {
-			w.fail("diffcursor-reads-too-much/"+strings.Split(rel, "/")[0], "NextEntry loop read %d distinct nodes; D=%d (bound %d)", len(loadedDC), D, bound)
+		if tooMuch("diffcursor", "", len(loadedDC)) {
 			return
 		}
 		if D > 0 && D*4 < len(setA)+len(setB) {
@@ -984,8 +999,7 @@ func (w *World) opDiffLinks(op *Op) {
 					return
 				}
 				w.st.Probes["diff-cost-mixed-provenance"]++
-				if len(loadedMix) > bound {
-					w.fail("diffiter-reads-too-much/"+strings.Split(rel, "/")[0]+"/"+mix, "DiffIter with %s read %d distinct nodes from the store; versions differ in D=%d nodes (bound %d); versions have %d and %d nodes", mix, len(loadedMix), D, bound, len(setA), len(setB))
+				if tooMuch("diffiter", "/"+mix, len(loadedMix)) {
 					return
 				}
 			}
